@@ -35,6 +35,8 @@ type Obligation struct {
 	UsedTol   bool
 	Hunt      bool
 	ScriptHash string
+	Probed     bool
+	ProbeModels []Model
 }
 
 type Interp struct {
